@@ -15,12 +15,23 @@ Definition tTexts (t : Tree) : list text := map tLZ (tL t).
      1  [file; axis; ids]       from_hdf5(ids=, axis=)                      -> result table
      2  [file; axis; ids]       from_hdf5(..., subset_with_metadata=False)  -> result table
      3  [table; axis; ids]      parse_table(json, ids=, axis=)              -> table
-     4  [text; axis; ids]       _subset_table on JSON text                  -> result text *)
+     4  [text; axis; ids]       _subset_table on JSON text                  -> result text
+     5  [file; axis; ids file text; L [L [id text; I code]]]   `biom subset-table -i` : the ids file is read as the
+                                command reads it, each id text is looked up (unknown -> a fresh negative code)  -> result table
+     6  [text; axis; ids file text]   `biom subset-table -j`  -> result text (the output file) *)
+Definition lookup_code (d : list (text * Z)) (k : nat) (i : text) : Z :=
+  match find (fun p => teqb (fst p) i) d with Some p => snd p | None => (- Z.of_nat (S k))%Z end.
+Fixpoint codes_from (d : list (text * Z)) (k : nat) (l : list text) : list Z :=
+  match l with [] => [] | i :: r => lookup_code d k i :: codes_from d (S k) r end.
+Definition tDict (t : Tree) : list (text * Z) := map (fun p => (tLZ (tnth p 0), tZ (tnth p 1))) (tL t).
 Definition run (t : Tree) : Tree :=
   match tZ (tnth t 0) with
   | 0%Z => let f := tFile (tnth t 1) in L [eTable (from_hdf5_all f); eB (wf_fileb f)]
   | 1%Z => eResult eTable (from_hdf5_subset (tLZ (tnth t 3)) (tAxis (tnth t 2)) (tFile (tnth t 1)))
   | 2%Z => eResult eTable (from_hdf5_subset_nomd (tLZ (tnth t 3)) (tAxis (tnth t 2)) (tFile (tnth t 1)))
   | 3%Z => eTable (parse_table_subset (tLZ (tnth t 3)) (tAxis (tnth t 2)) (tTable (tnth t 1)))
-  | _ => eResult eText (subset_json (tLZ (tnth t 1)) (tAxis (tnth t 2)) (tTexts (tnth t 3)))
+  | 4%Z => eResult eText (subset_json (tLZ (tnth t 1)) (tAxis (tnth t 2)) (tTexts (tnth t 3)))
+  | 5%Z => eResult eTable (from_hdf5_subset (codes_from (tDict (tnth t 4)) 0 (read_ids_file (tLZ (tnth t 3))))
+                                            (tAxis (tnth t 2)) (tFile (tnth t 1)))
+  | _ => eResult eText (cli_subset_json (tLZ (tnth t 1)) (tAxis (tnth t 2)) (tLZ (tnth t 3)))
   end.
